@@ -268,6 +268,34 @@ def cli_task(task):
                 sh.bad("zone-cli", "zone:cli:time-only:%s" % c[2],
                        "dconv --base %s --zone %s %s -> %r, at %s the file says offset %+d: %s" % (base, name, hms_(sod), got, civ(u), off, want),
                        dict(argv=argv, expected=want, observed=got), cls=c)
+    # dzone ZONE VALUE...: the zone's reading of an instant given as a civil UTC date-time, as @N and through -i %s
+    zt = [(t, k) for t, k in ts[:: max(1, len(ts) // 5)]]
+    for how in ("civil", "@", "-i%s"):
+        vals = [civ(t) if how == "civil" else "@%d" % t if how == "@" else "%d" % t for t, _ in zt]
+        if how == "-i%s":
+            vals = [v for v in vals if not v.startswith("-")]           # a leading minus is an option here
+            zt_ = [(t, k) for t, k in zt if t >= 0]
+        else:
+            zt_ = zt
+        if not vals:
+            continue
+        argv = [str(bindir / "dzone")] + (["-i", "%s"] if how == "-i%s" else []) + [path, "--"] + vals
+        r = run(argv, cpu=5, wall=60)
+        sh.procs += 1
+        sh.check_san(r, "zone-cli", "zone:cli:dzone")
+        outl = r.out.decode("latin-1").split("\n")[:-1]
+        for n_, (t, k) in enumerate(zt_):
+            got = outl[n_] if n_ < len(outl) else None
+            off = z.offset(t)
+            want = civ(t + off)
+            wantz = "%s%02d:%02d" % ("+" if off >= 0 else "-", abs(off) // 3600, abs(off) // 60 % 60)
+            c = ("cli", "dzone", how, k)
+            if got is not None and got.startswith(want) and (off % 900 or got[19:25] == wantz):
+                sh.ok("zone-cli", c)
+            else:
+                sh.bad("zone-cli", "zone:cli:dzone:%s:%s" % (how, "local" if got is None or not got.startswith(want) else "offset"),
+                       "%s -> line %d %r, file says %s%s" % (core.shq(argv)[:200], n_, got, want, wantz),
+                       dict(argv=argv, expected=want + wantz, observed=got), cls=c)
     # dzone --next / --prev: adjacent table entries
     for i in idx[:4]:
         if i + 1 >= z.ntrans:
@@ -340,7 +368,7 @@ def main(tier, seed):
                 "+2^40 s), random interior; each asked on a fresh handle (first query), in an ascending and in a "
                 "descending sweep on one handle; %d real zone images (fixed extreme ones + seeded sample of the %d "
                 "distinct images) + %d synthetic files (versions 1/2/3; 0..600 transitions; odd offsets; 1-second "
-                "spacing); dconv --zone/--from-zone and dzone --next/--prev on a sample. distinct_nontrivial = "
+                "spacing); dconv --zone/--from-zone, dzone ZONE VALUE (civil, @N, -i %%s) and dzone --next/--prev on a sample. distinct_nontrivial = "
                 "distinct (real|synthetic, query, boundary kind, mode, index>=256)" % (len(chosen), len(allz), len(syn)))
     ctx.cov["zones_visited"] = len(chosen)
     ctx.cov["distinct_zone_images_available"] = len(allz)
